@@ -199,3 +199,23 @@ CHECKS["C11"] = dict(
                 "range any access to another word faults",
     assumptions=["word types other than uint64_t and uint32_t are not instantiated"],
 )
+
+CHECKS["C10"] = dict(
+    name="dimension", harness=["checks/dimension.c"], libs=["varintDimension.c", "varintExternal.c", "varintTagged.c"],
+    engine="E-enum + E-bfs",
+    configs={"quick": ["pinned", "native"], "thorough": ["pinned", "native", "debug", "asan"]},
+    shards={"pinned": 16, "native": 16, "debug": 16, "asan": 16},
+    deadline={"quick": 120, "thorough": 1200},
+    rule="headers: all pairs over a 31-value boundary alphabet through Pack/Unpack (function and macro), all 72 (rows width, "
+         "cols width) combinations x {min, min+1, max-1, max} through PairDimension/PairEncode into an exact-size guard buffer, "
+         "all (x, y, sparse) through PAIR/DEPAIR; cells: rows in {0,1,2,3,255,256} x cols in {1,2,7,8,9,255,256,300} plus "
+         "column counts of every width 2-8 (row 0 region) x entry kind in {bit set/clear/toggle, unsigned 1-8 bytes, float, "
+         "double, half (native build)} x every cell (all cells up to 600, boundary cells beyond) x value alphabet x 2 "
+         "backgrounds; histories: full reachability of 2x3 / 3x3 bit matrices and a 2x2 byte matrix; class = (kind, rows width, "
+         "cols width) / header widths / pack dimension",
+    explanation="E-enum against a reference buffer built with independent offset arithmetic: the whole matrix (header + cells, "
+                "ending at a PROT_NONE page) must equal the reference after each write, and read-back returns the written value; "
+                "E-bfs: every state of the small matrices x every operation compared with the model, closure reached",
+    technique="exhaustive enumeration of (shape, cell, kind, value, background) plus explicit-state closure of small matrices",
+    assumptions=["rows > 0 with more than 2^17 cells are not addressable in memory and are covered only through row 0"],
+)
